@@ -5,6 +5,8 @@ import (
 	"go/types"
 	"hash/crc32"
 	"math"
+	"os"
+	"path/filepath"
 	"strings"
 
 	"golang.org/x/tools/go/ssa"
@@ -227,12 +229,19 @@ func (it *Interp) intrinsic(fn *ssa.Function, args []Val, c *ssa.CallCommon) (Va
 		it.poolPut(args[0].(Ptr), args[1])
 		return nil, true
 	case "sync.Mutex.Lock", "sync.Mutex.Unlock", "sync.RWMutex.Lock", "sync.RWMutex.Unlock", "sync.RWMutex.RLock", "sync.RWMutex.RUnlock", "sync.Mutex.TryLock":
+		if it.sched != nil {
+			return it.schedLock(name, args[0].(Ptr)), true
+		}
 		it.lockEvent(name, args[0].(Ptr))
 		if name == "Mutex.TryLock" {
 			return Bool{C: true}, true
 		}
 		return nil, true
 	case "sync.WaitGroup.Add", "sync.WaitGroup.Done", "sync.WaitGroup.Wait", "sync.WaitGroup.Go":
+		if it.sched != nil {
+			it.schedWG(name, args)
+			return nil, true
+		}
 		it.wgEvent(name, args)
 		return nil, true
 	case "sync.Once.Do":
@@ -310,6 +319,9 @@ func (it *Interp) intrinsic(fn *ssa.Function, args []Val, c *ssa.CallCommon) (Va
 		sub := it.lookupMethod("time", "Time", "Sub")
 		return it.callFunction2(sub, []Val{now, args[0]}), true
 	case "time.Sleep":
+		if it.sched != nil {
+			it.schedQuiesce("time.Sleep in " + it.where())
+		}
 		return nil, true
 	case "time.NewTicker":
 		return it.newTicker(args[0]), true
@@ -562,6 +574,44 @@ func (it *Interp) vrtCall(name string, args []Val) Val {
 			conds[i] = cx.Eq(v, cx.BV(64, uint64(i)))
 		}
 		return CInt(64, uint64(it.choose(conds, false)))
+	case "SchedPoint":
+		// decision input (part of the replay vector): 0 = go on, 1 = the other goroutines run first
+		v := it.newInput()
+		if it.sched == nil || !it.sched.othersRunnable(it.sched.cur) {
+			it.addPC(cx.Eq(v, cx.BV(64, 0)))
+			return nil
+		}
+		conds := []*sym.Term{cx.Eq(v, cx.BV(64, 0)), cx.Eq(v, cx.BV(64, 1))}
+		if it.choose(conds, false) == 1 {
+			it.schedQuiesce("vrt.SchedPoint(" + args[0].(Str).Conc() + ")")
+		}
+		return nil
+	case "AssertNoGoroutines":
+		label := args[0].(Str).Conc()
+		if it.sched == nil {
+			it.unsupported("vrt.AssertNoGoroutines outside schedule mode")
+		}
+		it.schedQuiesce("vrt.AssertNoGoroutines")
+		var alive []string
+		for _, t := range it.sched.threads[1:] {
+			if t != nil && !t.done {
+				alive = append(alive, t.name+" ("+t.why+")")
+			}
+		}
+		it.oblige(Bool{C: len(alive) == 0}, label, "assert", "still alive: "+strings.Join(alive, "; "))
+		return nil
+	case "Corpus":
+		rel := args[0].(Str).Conc()
+		it.stub("vrt.Corpus = the bytes of a corpus file of the repository (concrete)")
+		b, err := os.ReadFile(filepath.Join(it.opt.PkgDir, rel))
+		if err != nil {
+			it.unsupported("vrt.Corpus: " + err.Error())
+		}
+		vals := make([]Val, len(b))
+		for i := range vals {
+			vals[i] = CInt(8, uint64(b[i]))
+		}
+		return it.bytesToSlice(vals, "vrt.Corpus")
 	case "Bytes":
 		n := args[0].(Int)
 		if n.T != nil {
